@@ -722,35 +722,7 @@ Section Sim.
   Qed.
 End Sim.
 
-(* ---- the main loop on a printed AST ---- *)
-Fixpoint steps (n : tnode) : nat :=
-  let sl := fix sl (l : list tnode) : nat := match l with [] => 0 | x :: r => steps x + sl r end in
-  match n with TVar _ | TRaw _ => 1 | TLoop _ _ _ _ body => S (S (sl body)) | _ => 0 end.
-Fixpoint steps_list (l : list tnode) : nat := match l with [] => 0 | x :: r => steps x + steps_list r end.
-Lemma steps_loop : forall s v g so body, steps (TLoop s v g so body) = S (S (steps_list body)).
-Proof. reflexivity. Qed.
-
-Lemma spec_loop : forall r off, next_spec_c8 (s_loop_open ++ r) off = (7%N, off + 5).
-Proof. intros r off. cbn. f_equal. lia. Qed.
-Lemma spec_loop_end : forall r off, next_spec_c8 (s_loop_end ++ r) off = (8%N, off + 7).
-Proof. intros r off. cbn. f_equal. lia. Qed.
-
-Lemma val_at : forall content env depth pre set val group sort rest bl,
-  content = pre ++ loop_head set val group sort ++ rest ->
-  let lr := loop_rec env depth (length pre) set val group sort bl in
-  at_ content (l_off lr + N.to_nat (l_voff lr)) val.
-Proof.
-  intros content env depth pre set val group sort rest bl Hc lr.
-  destruct val as [|v0 vr]; [intros k Hk; cbn in Hk; lia|].
-  set (val := v0 :: vr) in *.
-  assert (Hc2 : content = (pre ++ s_loop_open ++ hp_set set ++ s_value_attr) ++ val ++ (s_quote ++ hp_grp group ++ hp_sort sort ++ s_gt ++ rest)).
-  { rewrite Hc, loop_head_parts. unfold hp_val, val. repeat rewrite <- app_assoc. reflexivity. }
-  replace (l_off lr + N.to_nat (l_voff lr)) with (length (pre ++ s_loop_open ++ hp_set set ++ s_value_attr)).
-  - apply (at_split _ _ _ _ Hc2).
-  - unfold lr, loop_rec, val. cbn [l_off l_voff]. rewrite Nat2N.id. repeat rewrite app_length. cbn [length s_loop_open s_value_attr].
-    destruct set as [p|]; unfold hp_set; repeat rewrite app_length; cbn [length s_set_attr s_quote]; lia.
-Qed.
-
+(* ---- texts without tokens ---- *)
 Lemma clash_no_prefix : forall wd r rest, clash wd r = true -> is_prefix_l wd (r ++ rest) = false.
 Proof.
   intros wd; induction wd as [|x wd IH]; intros r rest H; [discriminate H|].
@@ -779,156 +751,3 @@ Proof.
       apply IH. exact Hs.
 Qed.
 
-Section Sim2.
-  Variable numf : list N -> N * N * nat.
-  Variable w : N.
-  Variable content : list N.
-  Notation ML := (main_loop numf w content).
-
-  Definition node_par (x : tnode) : Prop :=
-    forall depth env stk cur pre post fuel,
-      wf_node1 (map fst env) depth x = true -> content = pre ++ print_node x ++ post ->
-      env_in content env -> length stk = depth ->
-      ML (steps x + fuel) (stt (tok pre (print_node x ++ post)) stk cur (map snd env)) =
-      ML fuel (stt (tok (pre ++ print_node x) post) stk (cur ++ build env depth (length pre) x) (map snd env)).
-
-  Lemma list_par : forall l, Forall node_par l ->
-    forall depth env stk cur pre post fuel,
-      forallb (wf_node1 (map fst env) depth) l = true -> content = pre ++ print_nodes l ++ post ->
-      env_in content env -> length stk = depth ->
-      ML (steps_list l + fuel) (stt (tok pre (print_nodes l ++ post)) stk cur (map snd env)) =
-      ML fuel (stt (tok (pre ++ print_nodes l) post) stk (cur ++ build_list env depth (length pre) l) (map snd env)).
-  Proof.
-    intros l Hl. induction Hl as [|x r Hx Hr IH]; intros depth env stk cur pre post fuel Hwf Hc Henv Hstk.
-    - cbn [print_nodes steps_list build_list app Nat.add]. repeat rewrite app_nil_r. reflexivity.
-    - cbn [forallb] in Hwf. apply andb_prop in Hwf. destruct Hwf as [Hwx Hwr].
-      cbn [print_nodes steps_list build_list] in *.
-      replace (steps x + steps_list r + fuel) with (steps x + (steps_list r + fuel)) by lia.
-      replace ((print_node x ++ print_nodes r) ++ post) with (print_node x ++ (print_nodes r ++ post)) by (rewrite app_assoc; reflexivity).
-      rewrite (Hx depth env stk cur pre (print_nodes r ++ post) (steps_list r + fuel) Hwx) by (try assumption; rewrite Hc; repeat rewrite <- app_assoc; reflexivity).
-      rewrite (IH depth env stk (cur ++ build env depth (length pre) x) (pre ++ print_node x) post fuel Hwr)
-        by (try assumption; rewrite Hc; repeat rewrite <- app_assoc; reflexivity).
-      repeat rewrite <- app_assoc. rewrite app_length. reflexivity.
-  Qed.
-
-  Lemma node_par_all : forall x, node_par x.
-  Proof.
-    apply tnode_ind2; unfold node_par.
-    - (* text *)
-      intros s depth env stk cur pre post fuel Hwf Hc Henv Hstk. cbn [wf_node1] in Hwf.
-      cbn [steps print_node build Nat.add]. rewrite app_nil_r. unfold tok.
-      rewrite spec_text by exact Hwf. rewrite app_length. reflexivity.
-    - (* var *)
-      intros p depth env stk cur pre post fuel Hwf Hc Henv Hstk. cbn [wf_node1] in Hwf. apply andb_prop in Hwf. destruct Hwf as [Hw Hu].
-      rewrite print_node_TVar in *. cbn [steps build Nat.add].
-      assert (Ht : tok pre ((s_var_open ++ print_path p ++ s_close) ++ post) = (2%N, length pre + 5))
-        by (unfold tok; repeat rewrite <- app_assoc; apply spec_var).
-      rewrite Ht. rewrite main_loop_step by (cbn; discriminate). unfold step, stt. cbn [ps_fm fst snd].
-      change (N.eqb 2 tpp_LineEndID) with false. change (N.eqb 2 tpp_VariableID) with true. cbv iota.
-      rewrite (do_var_sim2 numf w content PVar env stk cur pre s_var_open p post 2 Hc eq_refl Hw Henv). reflexivity.
-    - (* raw *)
-      intros p depth env stk cur pre post fuel Hwf Hc Henv Hstk. cbn [wf_node1] in Hwf. apply andb_prop in Hwf. destruct Hwf as [Hw Hu].
-      rewrite print_node_TRaw in *. cbn [steps build Nat.add].
-      assert (Ht : tok pre ((s_raw_open ++ print_path p ++ s_close) ++ post) = (3%N, length pre + 5))
-        by (unfold tok; repeat rewrite <- app_assoc; apply spec_raw).
-      rewrite Ht. rewrite main_loop_step by (cbn; discriminate). unfold step, stt. cbn [ps_fm fst snd].
-      change (N.eqb 3 tpp_LineEndID) with false. change (N.eqb 3 tpp_VariableID) with false. change (N.eqb 3 tpp_RawVariableID) with true. cbv iota.
-      rewrite (do_var_sim2 numf w content PRaw env stk cur pre s_raw_open p post 3 Hc eq_refl Hw Henv). reflexivity.
-    - intros e depth env stk cur pre post fuel Hwf. discriminate Hwf.
-    - intros p subs depth env stk cur pre post fuel Hwf. discriminate Hwf.
-    - intros c t fl _ _ depth env stk cur pre post fuel Hwf. discriminate Hwf.
-    - intros c t _ depth env stk cur pre post fuel Hwf. discriminate Hwf.
-    - intros c body more _ _ depth env stk cur pre post fuel Hwf. discriminate Hwf.
-    - (* loop *)
-      intros set val group sort body Hb depth env stk cur pre post fuel Hwf Hc Henv Hstk.
-      cbn [wf_node1] in Hwf.
-      apply andb_prop in Hwf. destruct Hwf as [Hwf Hbody]. apply andb_prop in Hwf. destruct Hwf as [Hwf Hhl].
-      apply andb_prop in Hwf. destruct Hwf as [Hwf Hsort]. apply andb_prop in Hwf. destruct Hwf as [Hwf Hgrp].
-      apply andb_prop in Hwf. destruct Hwf as [Hwf Hval]. apply andb_prop in Hwf. destruct Hwf as [Hd Hset].
-      apply Nat.ltb_lt in Hd. apply Nat.leb_le in Hhl.
-      assert (Hset' : match set with Some p => TfullModel.wf_path p = true | None => True end)
-        by (destruct set as [p|]; [apply andb_prop in Hset; exact (proj1 Hset)|exact I]).
-      rewrite print_node_TLoop in *. rewrite steps_loop.
-      set (head := loop_head set val group sort) in *. set (pbody := print_nodes body) in *.
-      set (lr := loop_rec env depth (length pre) set val group sort (length pbody)).
-      pose proof (loop_rec_fields env depth (length pre) set val group sort (length pbody)) as F.
-      cbv zeta in F. fold lr head in F. destruct F as (F1 & F2 & F3 & F4 & F5 & F6 & F7 & F8).
-      assert (Hc1 : content = pre ++ head ++ (pbody ++ s_loop_end ++ post)) by (rewrite Hc; repeat rewrite <- app_assoc; reflexivity).
-      (* <loop *)
-      assert (Ht : tok pre ((head ++ pbody ++ s_loop_end) ++ post) = (7%N, length pre + 5)).
-      { unfold tok, head. rewrite loop_head_attrs. repeat rewrite <- app_assoc. apply spec_loop. }
-      rewrite Ht. replace (S (S (steps_list body)) + fuel) with (S (steps_list body + S fuel)) by lia.
-      rewrite main_loop_step by (cbn; discriminate). unfold step.
-      change (stt (7%N, length pre + 5) stk cur (map snd env)) with (mkS (length pre + 5) 7 stk cur false (map snd env)). cbn [ps_fm].
-      change (N.eqb 7 tpp_LineEndID) with false. change (N.eqb 7 tpp_VariableID) with false. change (N.eqb 7 tpp_RawVariableID) with false.
-      change (N.eqb 7 tpp_MathID) with false. change (N.eqb 7 tpp_SuperVariableID) with false. change (N.eqb 7 tpp_InLineIfID) with false.
-      change (N.eqb 7 tpp_LoopID) with true. cbv iota.
-      rewrite (do_loop_sim numf w content env depth stk cur pre set val group sort (pbody ++ s_loop_end ++ post) (length pbody) 7
-                 Hc1 Hset' Hval Hgrp Hhl Hd Hstk Henv).
-      cbv zeta. cbn [bind]. fold head. fold lr.
-      set (l2 := up_end lr 0).
-      set (env' := (val, info_of lr) :: env).
-      assert (Hinfo : info_of l2 = info_of lr) by reflexivity.
-      rewrite Hinfo.
-      change (info_of lr :: map snd env) with (map snd env').
-      (* the body *)
-      assert (Henv' : env_in content env').
-      { constructor; [|exact Henv]. cbn [fst snd]. split; [reflexivity|]. split; [|exact Hval].
-        unfold info_of. cbn [li_off li_voff]. apply (val_at content env depth pre set val group sort _ (length pbody) Hc1). }
-      assert (Hc2 : content = (pre ++ head) ++ pbody ++ (s_loop_end ++ post)) by (rewrite Hc; repeat rewrite <- app_assoc; reflexivity).
-      pose proof (list_par body Hb (S depth) env' ((cur ++ [PLoop l2 []]) :: stk) [] (pre ++ head) (s_loop_end ++ post) (S fuel)
-                    Hbody Hc2 Henv' ltac:(cbn [length]; lia)) as Hbd.
-      unfold tok at 1 in Hbd. rewrite app_length in Hbd. unfold stt at 1 in Hbd.
-      fold pbody in Hbd. rewrite Hbd. clear Hbd. cbn [app].
-      (* </loop> *)
-      assert (Ht2 : tok ((pre ++ head) ++ pbody) (s_loop_end ++ post) = (8%N, length pre + length head + length pbody + 7)).
-      { unfold tok. rewrite spec_loop_end. repeat rewrite app_length. reflexivity. }
-      rewrite Ht2. rewrite main_loop_step by (cbn; discriminate). unfold step.
-      match goal with |- context [stt (8%N, ?o) ?a ?b ?c] => change (stt (8%N, o) a b c) with (mkS o 8 a b false c) end. cbn [ps_fm].
-      change (N.eqb 8 tpp_LineEndID) with false. change (N.eqb 8 tpp_VariableID) with false. change (N.eqb 8 tpp_RawVariableID) with false.
-      change (N.eqb 8 tpp_MathID) with false. change (N.eqb 8 tpp_SuperVariableID) with false. change (N.eqb 8 tpp_InLineIfID) with false.
-      change (N.eqb 8 tpp_LoopID) with false. change (N.eqb 8 tpp_LoopEndID) with true. cbv iota.
-      change (map snd env') with (info_of l2 :: map snd env).
-      pose proof (do_loop_end_sim numf w content env depth stk cur pre set val group sort body post
-                    (build_list env' (S depth) (length pre + length head) body) Hc) as Hend.
-      cbv zeta in Hend. fold head pbody lr l2 in Hend. rewrite Hend. cbn [bind].
-      rewrite <- F3. reflexivity.
-  Qed.
-End Sim2.
-
-Lemma steps_le : forall x, steps x <= length (print_node x).
-Proof.
-  apply tnode_ind2; intros; try (cbn [steps]; lia).
-  - rewrite print_node_TVar. cbn [steps]. rewrite app_length. cbn [length s_var_open]. lia.
-  - rewrite print_node_TRaw. cbn [steps]. rewrite app_length. cbn [length s_raw_open]. lia.
-  - rewrite steps_loop, print_node_TLoop. repeat rewrite app_length. cbn [length s_loop_end].
-    assert (Hl : steps_list body <= length (print_nodes body)).
-    { induction H as [|x r Hx Hr IH]; [cbn; lia|]. cbn [steps_list print_nodes]. rewrite app_length. lia. }
-    lia.
-Qed.
-Lemma steps_list_le : forall l, steps_list l <= length (print_nodes l).
-Proof.
-  intros l; induction l as [|x r IH]; [cbn; lia|]. cbn [steps_list print_nodes]. rewrite app_length. pose proof (steps_le x). lia.
-Qed.
-
-Theorem parse_print_full_gen : forall numf w ast, wf_template ast = true ->
-  parse_gen numf w (print_nodes ast) = Ok (tree_of_full ast).
-Proof.
-  intros numf w ast Hwf. set (content := print_nodes ast).
-  unfold parse_gen, parse_state.
-  assert (Hc0 : content = [] ++ content) by reflexivity.
-  pose proof (fnext_tok w content [] content Hc0) as Hf. cbn [length] in Hf. rewrite Hf. cbn [bind].
-  pose proof (steps_list_le ast) as Hle. fold content in Hle.
-  replace (S (S (length content))) with (steps_list ast + (S (S (length content)) - steps_list ast)) by lia.
-  assert (Hall : Forall (node_par numf w content) ast) by (apply Forall_forall; intros x _; apply node_par_all).
-  pose proof (list_par numf w content ast Hall 0 [] [] [] [] [] (S (S (length content)) - steps_list ast) Hwf) as Hp.
-  cbn [map app length] in Hp. rewrite app_nil_r in Hp. fold content in Hp. unfold stt at 1 in Hp.
-  rewrite Hp; [|reflexivity|constructor|reflexivity].
-  unfold tok, stt. cbn [next_spec_c8 next_spec fst snd].
-  rewrite main_loop_done by reflexivity. cbn [bind]. unfold unwind. cbn [ps_stack ps_cur]. reflexivity.
-Qed.
-
-(* C02, parser side: parsing the printed text of a well-formed AST yields exactly [tree_of_full ast] *)
-Theorem parse_print_full : forall w ast, wf_template ast = true ->
-  parse_model w (print_nodes ast) = Ok (tree_of_full ast).
-Proof. intros w ast H. apply parse_print_full_gen. exact H. Qed.
